@@ -5,6 +5,8 @@ import sys
 REPO = os.environ.get('SQ_REPO', '/repo')
 _booted = False
 PKGDIR = None
+_CACHE_SENTINEL = {}
+PRISTINE_CACHED = None
 PRISTINE = None     # a never-used SqParser; deep copies of it are the pristine parsers of twin universes
 
 
@@ -29,6 +31,8 @@ def boot():
     seams.AUDIT.install(PKGDIR)
     from smartquery.sq_parser import SqParser
     PRISTINE = SqParser()
+    global PRISTINE_CACHED
+    PRISTINE_CACHED = SqParser(parse_cache=_CACHE_SENTINEL)   # constructor-time decisions that depend on a cache being given
     _load_twin()
     from . import modstate
     global SNAP_A, SNAP_B
@@ -129,11 +133,15 @@ def fresh_parser(cache=None):
     # the LR tables are read-only after construction; sharing them makes the copy ~20x cheaper while every
     # other attribute (known or added by a future change) is still deep-copied
     memo = {}
-    y = getattr(PRISTINE, 'yacc', None)
+    proto = PRISTINE if cache is None else PRISTINE_CACHED
+    y = getattr(proto, 'yacc', None)
     for attr in ('productions', 'action', 'goto'):
         t = getattr(y, attr, None)
         if t is not None:
             memo[id(t)] = t
-    p = copy.deepcopy(PRISTINE, memo)
-    p.parse_cache = cache
+    if cache is not None:
+        memo[id(_CACHE_SENTINEL)] = cache      # every reference to the constructor's cache argument becomes `cache`
+    p = copy.deepcopy(proto, memo)
+    if cache is None:
+        p.parse_cache = None
     return p
